@@ -23,7 +23,7 @@ def renewF (s : SrvF) (r : Rec) (fa n : Nat) : SrvF × Rec × Bool :=
     else
       match write r s.base.id 0 s.base.tick with
       | (r', true) => ({ s with sess := true }, r', false)
-      | (r', false) => ({ base := becomeFollowerNil s.base, sess := true }, r', false)
+      | (r', false) => ({ base := becomeFollowerNil s.base, sess := true }, r', true)     -- refused: stepped down, and an error (fix 84f492b)
 
 /-- `campaign` with its first operation numbered `n` -/
 def campaignF (s : SrvF) (r : Rec) (fa n : Nat) : SrvF × Rec :=
